@@ -48,15 +48,16 @@ func (p *P) gPowerStoreBase(rule string) {
 		return
 	}
 	n := 0
+	okHead, okBoot := false, false
+	bad := ""
+	var all []string
 	for _, ret := range returnsOf(fn) {
 		if len(ret.Results) != 3 || canon(ret.Results[2]) != "nil" {
 			continue
 		}
 		n++
-		alts := splitAlternatives(canon(ret.Results[0]))
-		okHead, okBoot := false, false
-		bad := ""
-		for _, a := range alts {
+		for _, a := range splitAlternatives(canon(ret.Results[0])) {
+			all = append(all, a)
 			switch {
 			case a == "($0.manifest.BootstrapEpoch - $0.manifest.EC.Finality)":
 				okBoot = true
@@ -66,10 +67,11 @@ func (p *P) gPowerStoreBase(rule string) {
 				bad = a
 			}
 		}
-		r.Check(okHead && okBoot && bad == "", rule, "powerstore.f3PowerBase: base epoch = epoch of the HEAD finalized by the look-back certificate (bootstrap epoch − finality before that)", p.c.InstrPos(ret), strings.Join(alts, " | "), "base epoch is "+strings.Join(alts, " | ")+" — disagrees with the committee rule of GetCommittee (head of certificate instance − Lookback)")
 	}
 	if n == 0 {
 		r.Undecided(rule, "powerstore.f3PowerBase: base epoch", "no successful return found")
+	} else {
+		r.Check(okHead && okBoot && bad == "", rule, "powerstore.f3PowerBase: base epoch = epoch of the HEAD finalized by the look-back certificate (bootstrap epoch − finality before that)", p.c.Pos(fn.Pos()), strings.Join(uniq(all), " | "), "base epoch is "+strings.Join(uniq(all), " | ")+" — disagrees with the committee rule of GetCommittee (head of certificate instance − Lookback)")
 	}
 	for _, cs := range callsTo(fn, false, "certstore.Store.Get") {
 		l := renameLin(linOf(cs.ArgValues()[2]), func(s string) string {
